@@ -12,6 +12,7 @@
 #if SIM_PART == 0
     #define SIM_MAIN_TU 1
 #endif
+#include "../sim/composite.hpp"
 #include "../sim/driver.hpp"
 #include "../sim/worker.hpp"
 
@@ -1591,7 +1592,7 @@ void add_set(std::string name)
     s.name   = std::move(name);
     s.ops    = D::ops();
     s.props  = {"C09", "C02", "C05"};
-    if (is_tracked_v<K>) {
+    if (is_tracked_v<K> || std::is_same_v<K, sim::Nest>) {
         s.props.emplace_back("C03");
     }
     s.run = [](Plan const& p, Ctx& c) {
@@ -1648,6 +1649,31 @@ void register_set_0()
     add_plain<FlatCmpDriver>("flat_set<int,4,stateful-comparator>");
     add_plain<BagSetDriver<false>>("static_set<BagKey,4>");
     add_plain<BagSetDriver<true>>("flat_set<BagKey,4>");
+    // keys that own library objects themselves (see sim/composite.hpp)
+#if defined(__clang__)
+    // (clang 14 cannot compile them: empty placeholders keep the seed -> scenario mapping identical for both compilers)
+    for (char const* name : {"static_set<Nest,3,less>", "flat_set<Nest,4,greater>"}) {
+        Scenario s;
+        s.family          = "set";
+        s.name            = name;
+        s.ops             = {{"noop", 1}};
+        s.props           = {"C09", "C02", "C05", "C03"};
+        s.compilerNeutral = false;
+        s.run             = [](Plan const&, Ctx&) { };
+        registry().push_back(std::move(s));
+    }
+#else
+    {
+        using K = sim::Nest;
+        add_set<etl::static_set<K, 3, etl::less<K>>, K, 3, std::less<int>, SK::static_set, false>("static_set<Nest,3,less>");
+        add_set<etl::flat_set<K, etl::static_vector<K, 4>, etl::greater<K>>, K, 4, std::greater<int>, SK::flat_set, false>("flat_set<Nest,4,greater>");
+        for (auto& s : registry()) {
+            if (s.name.find("Nest") != std::string::npos) {
+                s.compilerNeutral = false;
+            }
+        }
+    }
+#endif
 }
 
 auto main(int argc, char** argv) -> int
